@@ -9,3 +9,36 @@ pub fn verif_http_dump() -> String {
 pub fn verif_http_init_stub() -> Smack {
     crate::smack::verif_tables::http_smack()
 }
+
+// Native run of the REAL proto::http::repl of this tree (translator validation and replay of
+// the C13 response-text engine): request bytes in, response bytes out.
+#[cfg(test)]
+mod verif_c13_native {
+    use super::*;
+    use crate::logger::MetaLogger;
+    use pnet::util::MacAddr;
+    #[test]
+    fn verif_c13_native() {
+        let hex = match std::env::var("VERIF_C13_REQ") {
+            Ok(h) => h,
+            Err(_) => return,
+        };
+        let data: Vec<u8> = (0..hex.len() / 2).map(|i| u8::from_str_radix(&hex[2 * i..2 * i + 2], 16).unwrap()).collect();
+        let masscanned = Masscanned {
+            synack_key: [0, 0],
+            mac: MacAddr::new(0, 1, 2, 3, 4, 5),
+            iface: None,
+            self_ip_list: None,
+            remote_ip_deny_list: None,
+            log: MetaLogger::new(),
+        };
+        let ci = ClientInfo::new();
+        match repl(&data, &masscanned, &ci, None) {
+            None => println!("VERIF_C13_RESP=none"),
+            Some(r) => {
+                let h: String = r.iter().map(|b| format!("{:02x}", b)).collect();
+                println!("VERIF_C13_RESP={}", h);
+            }
+        }
+    }
+}
